@@ -122,7 +122,9 @@ Definition destroy (w : world) (e : N) (keep effective : bool) : world * list ca
   if negb (memN e (w_envs w)) then (w, []) else
   let victims := env_tasks e (w_roster w) in
   let ros1 := release e (w_roster w) in
-  if keep then
+  (* DestroyEnvironment honours keepTasks only for a healthy environment; one that lost a task is
+     in ERROR, its teardown is forced and the tasks are cleaned up whatever was asked *)
+  if keep && forallb rt_active victims then
     (mkW (w_failover w) (w_store w) (w_nextfw w) (w_master w) (w_mem w) ros1
          (remove_env e (w_envs w)) (w_ntask w) (w_nenv w) (w_pending w), [])
   else
